@@ -243,9 +243,19 @@ func boundName(b int) string {
 // is left behind.  (Waits on an idle pool, tasks that finish while nobody waits, and rounds after
 // such rounds are histories the other drivers never produce.)
 func poolHistoryScenario(w, length, bound int) Scenario {
+	return poolHistoryScenarioA(w, length, bound, "WQiy.")
+}
+
+// poolHistoryScenarioA: histories over the given alphabet — W: Wait, Q: let the pool go quiescent,
+// i / y: submit a fresh task (immediate / yielding), s: submit THE SAME func value once more (a
+// caller may well hand in one function many times: each submission is a task of its own), .: stop.
+func poolHistoryScenarioA(w, length, bound int, alphabet string) Scenario {
 	var label string
 	body := func() {
 		pool := flyt.NewWorkerPool(w)
+		var sameRuns core.Cell[int]
+		sameSubmitted := 0
+		same := func() { sameRuns.Set(sameRuns.Get() + 1) }
 		var started, finished [8]core.Cell[int]
 		var vars []*core.Var[int]
 		for i := 0; i < length; i++ {
@@ -254,7 +264,7 @@ func poolHistoryScenario(w, length, bound int) Scenario {
 		n := 0
 		var hist []byte
 		for step := 0; step < length; step++ {
-			op := "WQiy."[core.Choose(5)]
+			op := alphabet[core.Choose(len(alphabet))]
 			if op == '.' {
 				break
 			}
@@ -272,8 +282,14 @@ func poolHistoryScenario(w, length, bound int) Scenario {
 						core.Problem("history %s: effect of task %d not visible after Wait", hist, k)
 					}
 				}
+				if r := sameRuns.Get(); r != sameSubmitted {
+					core.Problem("history %s: the same func value was submitted %d times before this Wait but has run %d times", hist, sameSubmitted, r)
+				}
 			case 'Q':
 				core.WaitQuiescent()
+			case 's':
+				sameSubmitted++
+				pool.Submit(same)
 			default:
 				k, kind := n, op
 				n++
@@ -293,13 +309,20 @@ func poolHistoryScenario(w, length, bound int) Scenario {
 				core.Problem("history %s: after the final Wait task %d has started %d / finished %d times, want exactly once", hist, k, st, fi)
 			}
 		}
+		if r := sameRuns.Get(); r != sameSubmitted {
+			core.Problem("history %s: the same func value was submitted %d times but has run %d times after the final Wait", hist, sameSubmitted, r)
+		}
 		pool.Close()
 		if live := core.WaitQuiescent(); len(live) > 0 {
 			core.Problem("history %s: after Wait+Close %d pool goroutine(s) never terminate: %s", hist, len(live), strings.Join(live, ", "))
 		}
 		label = string(hist)
 	}
-	return Scenario{Name: fmt.Sprintf("pool-history w=%d length<=%d", w, length) + boundName(bound), Bound: bound, Body: body, Check: stdCheck(func() string { return label })}
+	name := fmt.Sprintf("pool-history w=%d length<=%d", w, length)
+	if alphabet != "WQiy." {
+		name += " alphabet=" + alphabet
+	}
+	return Scenario{Name: name + boundName(bound), Bound: bound, Body: body, Check: stdCheck(func() string { return label })}
 }
 
 // poolOverlappingWaitsScenario: several Waits in progress at once.  A gated task keeps the pool
@@ -393,6 +416,16 @@ func genC12(tier string) []Scenario {
 			out = append(out, poolHistoryScenario(w, 5, 1))
 			out = append(out, poolOverlappingWaitsScenario(w, 1))
 		}
+	}
+	// the same func value submitted again and again, alone and next to fresh tasks
+	for _, w := range []int{1, 2} {
+		out = append(out, poolHistoryScenarioA(w, 5, 1, "Wsi."))
+	}
+	// larger pools (sizes a pool might treat differently from one, two or three workers), short histories
+	// (every order in which the idle workers start up is explored: five workers is what fits)
+	out = append(out, poolHistoryScenarioA(5, 3, 0, "Wi."))
+	if thorough {
+		out = append(out, poolHistoryScenarioA(6, 3, 0, "Wi."))
 	}
 	ws := []int{1, 2, 0, -1}
 	if thorough {
